@@ -280,6 +280,7 @@ func runC09(c *Ctx) {
 	}
 	refsCases(c, nrefs)
 	// law 1: A / heading / B
+	closedByConstruction := map[string]bool{}
 	var pairs []docItem
 	var pairA, pairB [][]byte
 	tgt := 17
@@ -347,6 +348,7 @@ func runC09(c *Ctx) {
 			"> # x", "- # x", "# x", "t\n===", "```\nc\n```"}
 		starts := []string{"para", "- item", "> quote", "# h", "```\nf\n```", "1. o", "***", "<div>\nb\n</div>", "|a|\n|-|\n|b|", "t\n---", "    code", "+ p\n\n  q"}
 		for _, a := range tails {
+			closedByConstruction[a+"\n"] = true
 			for _, b := range starts {
 				for ind := 0; ind <= 4; ind++ {
 					bb := strings.Repeat(" ", ind) + strings.ReplaceAll(b, "\n", "\n"+strings.Repeat(" ", ind))
@@ -380,7 +382,9 @@ func runC09(c *Ctx) {
 		a, b := d[:i], d[i+1:]
 		// eligibility is decided on the source text (a line scan that knows fences and the HTML
 		// kinds a blank line does not close), never by asking the implementation
-		if endsOpen(string(a)) || bytes.ContainsAny(a, "\t") {
+		// (documents with tabs are left out because the scan does not follow tab stops, except the
+		// constructed tails, which end with a heading, a thematic break or a closed fence)
+		if !closedByConstruction[string(a)] && (endsOpen(string(a)) || bytes.ContainsAny(a, "\t")) {
 			return "", false
 		}
 		if !bytes.HasSuffix(a, []byte("\n")) {
